@@ -29,19 +29,19 @@ theorem call_enabled_of_free {s : Sys} (h : SysInv s) (hmu : s.mu = none) (i : N
 
 
 /-- with the mutex free, a failing read loop runs to its end on its own -/
-theorem loop_finishes_free {s : Sys} (h : SysInv s) (hmu : s.mu = none) (k : Nat)
+theorem loop_finishes_free {s : Sys} (h : SysInv s) (hg : s.guarded = true) (hmu : s.mu = none) (k : Nat)
     (hk : (∃ ev, s.loopPc k = some (.onerror ev)) ∨ (∃ w, s.loopPc k = some (.closing w))) :
     ∃ n s', n ≤ 3 ∧ run s (List.replicate n (.loopStep k)) = some s' ∧ s'.loopPc k = some .done := by
   -- from `closing`
-  have fromClosing : ∀ (t : Sys), SysInv t → t.mu = none → ∀ w, t.loopPc k = some (.closing w) →
+  have fromClosing : ∀ (t : Sys), SysInv t → t.guarded = true → t.mu = none → ∀ w, t.loopPc k = some (.closing w) →
       ∃ n s', n ≤ 2 ∧ run t (List.replicate n (.loopStep k)) = some s' ∧ s'.loopPc k = some .done := by
-    intro t ht htmu w hw
+    intro t ht htg htmu w hw
     have hw' : t.incs[k]?.map Inc.loop = some (.closing w) := hw
     by_cases ho : t.isOpen = true
     · -- takes the mutex, then closes
       let t1 := setLoop { t with mu := some (.loop k) } k (.atSignal w)
       have hst : step t (.loopStep k) = some t1 := by simp [step, hw', htmu, ho, t1]
-      have ht1 := inv_step ht hst
+      have ht1 := inv_step ht htg hst
       have hpc1 : t1.loopPc k = some (.atSignal w) := by
         simp only [t1, loopPc_setLoop, if_true]
         have : ({ t with mu := some (Pid.loop k) } : Sys).loopPc k = t.loopPc k := rfl
@@ -69,12 +69,12 @@ theorem loop_finishes_free {s : Sys} (h : SysInv s) (hmu : s.mu = none) (k : Nat
       · rw [loopPc_setLoop, setSig_loopPc s h.fresh, hev]; simp
     · let w : Closer := if ev = .eof then .peerEof else .failure
       have hst : step s (.loopStep k) = some (setLoop s k (.closing w)) := by simp [step, hev', hp, w]
-      have h1 := inv_step h hst
+      have h1 := inv_step h hg hst
       have hpc : (setLoop s k (.closing w)).loopPc k = some (.closing w) := by rw [loopPc_setLoop, hev]; simp
-      obtain ⟨n, s', hn, hrun, hdone⟩ := fromClosing _ h1 (by simpa using hmu) w hpc
+      obtain ⟨n, s', hn, hrun, hdone⟩ := fromClosing _ h1 (by simpa using hg) (by simpa using hmu) w hpc
       refine ⟨n + 1, s', by omega, ?_, hdone⟩
       simp [List.replicate_succ, run, hst, hrun]
-  · obtain ⟨n, s', hn, hrun, hdone⟩ := fromClosing s h hmu w hw
+  · obtain ⟨n, s', hn, hrun, hdone⟩ := fromClosing s h hg hmu w hw
     exact ⟨n, s', by omega, hrun, hdone⟩
 
 theorem doClose_loopPc_keep (s : Sys) (hf : s.fresh = true) (w : Closer) (k : Nat) (pc : LPc)
@@ -96,7 +96,7 @@ theorem run_append (s : Sys) (as bs : List Action) :
 
 /-- a read loop that has seen its read fail runs to its end using only its own steps and
 (first) the step of whoever holds the mutex -/
-theorem loop_finishes {s : Sys} (h : SysInv s) (k : Nat)
+theorem loop_finishes {s : Sys} (h : SysInv s) (hg : s.guarded = true) (k : Nat)
     (hk : (∃ ev, s.loopPc k = some (.onerror ev)) ∨ (∃ w, s.loopPc k = some (.closing w)) ∨
           (∃ w, s.loopPc k = some (.atSignal w))) :
     ∃ as s', as.length ≤ 4 ∧ (∀ a ∈ as, a = .loopStep k ∨ ∃ p, s.mu = some p ∧ a = p.act) ∧
@@ -104,9 +104,9 @@ theorem loop_finishes {s : Sys} (h : SysInv s) (k : Nat)
   cases hmu : s.mu with
   | none =>
     rcases hk with hk | hk | ⟨w, hw⟩
-    · obtain ⟨n, s', hn, hr, hd⟩ := loop_finishes_free h hmu k (Or.inl hk)
+    · obtain ⟨n, s', hn, hr, hd⟩ := loop_finishes_free h hg hmu k (Or.inl hk)
       exact ⟨_, s', by simp; omega, by intro a ha; left; exact (List.mem_replicate.mp ha).2, hr, hd⟩
-    · obtain ⟨n, s', hn, hr, hd⟩ := loop_finishes_free h hmu k (Or.inr hk)
+    · obtain ⟨n, s', hn, hr, hd⟩ := loop_finishes_free h hg hmu k (Or.inr hk)
       exact ⟨_, s', by simp; omega, by intro a ha; left; exact (List.mem_replicate.mp ha).2, hr, hd⟩
     · have := h.loopAt k w hw; simp [hmu] at this
   | some p =>
@@ -114,7 +114,8 @@ theorem loop_finishes {s : Sys} (h : SysInv s) (k : Nat)
     cases hst : step s p.act with
     | none => simp [hst] at hen
     | some s1 =>
-      have h1 := inv_step h hst
+      have h1 := inv_step h hg hst
+      have hg1 : s1.guarded = true := by rw [step_guarded hst]; exact hg
       have ho := h.muOpen (by simp [hmu])
       have hz := curSig_zero h ho
       -- what the holder's step does
@@ -133,7 +134,7 @@ theorem loop_finishes {s : Sys} (h : SysInv s) (k : Nat)
           · exact Or.inl ⟨ev, keep _ hev (by simp)⟩
           · exact Or.inr ⟨w, keep _ hw (by simp)⟩
           · have := h.loopAt k w hw; rw [hmu] at this; cases this
-        obtain ⟨n, s', hn, hr, hd⟩ := loop_finishes_free h1 hmu1 k hk1
+        obtain ⟨n, s', hn, hr, hd⟩ := loop_finishes_free h1 hg1 hmu1 k hk1
         refine ⟨Pid.act (.call i) :: List.replicate n (.loopStep k), s', by simp; omega, ?_, ?_, hd⟩
         · intro a ha
           rcases List.mem_cons.mp ha with rfl | ha
@@ -162,7 +163,7 @@ theorem loop_finishes {s : Sys} (h : SysInv s) (k : Nat)
             · exact Or.inr ⟨w, keep _ hw (by simp)⟩
             · have := h.loopAt k w hw; rw [hmu] at this; injection this with this; injection this with this
               exact absurd this hjk
-          obtain ⟨n, s', hn, hr, hd⟩ := loop_finishes_free h1 hmu1 k hk1
+          obtain ⟨n, s', hn, hr, hd⟩ := loop_finishes_free h1 hg1 hmu1 k hk1
           refine ⟨Pid.act (.loop j) :: List.replicate n (.loopStep k), s', by simp; omega, ?_, ?_, hd⟩
           · intro a ha
             rcases List.mem_cons.mp ha with rfl | ha
